@@ -38,7 +38,8 @@ def gen_case(r):
         prog.append(["RegCb", cb])
         cb += 1
     prog.append(["EndBlock"])
-    return {"svcs": svcs, "prog": prog, "nested": r.random() < 0.5, "choices": [r.randrange(6) for _ in range(60)]}
+    return {"svcs": svcs, "prog": prog, "nested": r.random() < 0.5, "choices": [r.randrange(6) for _ in range(60)],
+            "block_raises": r.random() < 0.3}      # the block ends with an exception: the same teardown
 
 
 def svc_term(sv):
@@ -68,6 +69,9 @@ def case_term(r):
 # ------------------------------------------------------------------ oracle: the property, restated
 def oracle(r):
     bad = []
+    for sid, has_before, has_after in r.get("snapshot_bad") or []:
+        bad.append(("C08:snapshot", f"service task {sid}'s context is not the snapshot taken when it was started: "
+                    f"registered before the call visible={has_before}, registered after the call returned visible={has_after}"))
     log = [o for s in r["steps"] for o in s["obs"]]
     pos = {}
     for i, o in enumerate(log):
@@ -205,15 +209,19 @@ def run(ck: Check):
                 sigs[sig] = (size, r, what)
     for sig, (_, r, what) in sigs.items():
         ck.fail_input(sig, what, {"backend": r["backend"], "svcs": r["svcs"], "prog": r["prog"], "nested": r["nested"],
-                                  "choices": r["choices"], "steps": r["steps"]})
+                                  "choices": r["choices"], "block_raises": r.get("block_raises", False),
+                                  "steps": r["steps"]})
     for i in bad[:10]:
         if not oracle(results[i]):
             ck.broke("correspondence", {"backend": results[i]["backend"], "svcs": results[i]["svcs"],
                                         "prog": results[i]["prog"], "nested": results[i]["nested"],
-                                        "choices": results[i]["choices"], "steps": results[i]["steps"]})
+                                        "choices": results[i]["choices"],
+                                        "block_raises": results[i].get("block_raises", False),
+                                        "steps": results[i]["steps"]})
     ncrash = check_crashes(ck)
-    dist = {"actions": {}, "left": 0, "tasks": {}, "nested": 0, "cancel_seen": 0, "stop_seen": 0}
+    dist = {"actions": {}, "left": 0, "tasks": {}, "nested": 0, "cancel_seen": 0, "stop_seen": 0, "block_raises": 0}
     for r in results:
+        dist["block_raises"] += bool(r.get("block_raises"))
         dist["left"] += r["left"]
         dist["nested"] += r["nested"]
         dist["tasks"][len(r["svcs"])] = dist["tasks"].get(len(r["svcs"]), 0) + 1
@@ -256,6 +264,7 @@ def replay(ck: Check, obj) -> int:
             "backend": rp["backend"]}
     if rp.get("gates"):
         case["gates"] = rp["gates"]
+    case["block_raises"] = bool(rp.get("block_raises"))
     r = ck.run_impl("impl_svc.py", [{"cases": [case]}])[0]["results"][0]
     if "crash" in r and "steps" not in r:
         print(r["crash"])
